@@ -173,13 +173,13 @@ var verifChainSegments = []string{"..", "t", "v", "."}
 
 // VerifUnpackChain: symlink-then-write-through sequences of three entries. A symlink t, then a
 // symlink or hard link x whose target walks through t (lexically inside the target directory,
-// physically possibly not), then a regular file with the same name as the link.
+// physically possibly not), then a regular file with the same name as the link or below it.
 func VerifUnpackChain() {
 	vos.Reset()
 	root, dir := verifSandbox()
 	defer os.RemoveAll(root)
 	names := []string{"x", "d/x"}
-	t1 := []string{".", "..", "a", "/"}[verifrt.Choice("t-target", 4)]
+	t1 := []string{".", ".."}[verifrt.Choice("t-target", 2)]
 	linkName := names[verifrt.Choice("link-name", len(names))]
 	linkType := byte(tar.TypeSymlink)
 	if verifrt.Choice("hard-link", 2) == 1 {
@@ -192,7 +192,9 @@ func VerifUnpackChain() {
 		}
 		target += verifChainSegments[verifrt.Choice("target-segment", len(verifChainSegments))]
 	}
-	fileName := names[verifrt.Choice("file-name", len(names))]
+	// the regular file has the link's name, or sits below it
+	fileNames := []string{"x", "d/x", "x/f", "d/x/f"}
+	fileName := fileNames[verifrt.Choice("file-name", len(fileNames))]
 	if verifrt.Choice("dot-slash", 2) == 1 {
 		fileName = "./" + fileName
 	}
